@@ -37,13 +37,18 @@ struct Script
     mask_t   upd_map; unsigned upd_delta;     // instant = counter of the carrying event + delta
     std::uint64_t until;        // run until this many connection events have passed
     std::uint64_t upd_from;     // != 0: deliver the update at the first event with number >= upd_from instead ( wrap scripts )
+    // up to two further LL_CHANNEL_MAP_REQ: sent in the first event that takes place `gap` or more events after the instant of the one before
+    unsigned more;
+    mask_t   more_map[ 2 ]; unsigned more_delta[ 2 ]; unsigned more_gap[ 2 ];
 };
 
 std::string line( const Script& s )
 {
     return mc::fmt( "hop=%u map=%s rfu=%02x latency=%u pattern=%02x upd_step=%d upd_map=%s upd_delta=%u until=%llu upd_from=%llu",
                     s.hop, csa1::hex( s.map ).c_str(), s.rfu, s.latency, s.pattern, s.upd_step, csa1::hex( s.upd_map ).c_str(), s.upd_delta,
-                    (unsigned long long)s.until, (unsigned long long)s.upd_from );
+                    (unsigned long long)s.until, (unsigned long long)s.upd_from )
+         + mc::fmt( " more=%u m1=%s:%u:%u m2=%s:%u:%u", s.more, csa1::hex( s.more_map[ 0 ] ).c_str(), s.more_delta[ 0 ], s.more_gap[ 0 ],
+                    csa1::hex( s.more_map[ 1 ] ).c_str(), s.more_delta[ 1 ], s.more_gap[ 1 ] );
 }
 
 bool parse( const std::string& l, Script& s )
@@ -52,6 +57,14 @@ bool parse( const std::string& l, Script& s )
     if ( sscanf( l.c_str(), "hop=%u map=%llx rfu=%x latency=%u pattern=%x upd_step=%d upd_map=%llx upd_delta=%u until=%llu upd_from=%llu",
                  &s.hop, &m, &s.rfu, &s.latency, &s.pattern, &s.upd_step, &um, &s.upd_delta, &until, &from ) != 10 ) return false;
     s.map = m; s.upd_map = um; s.until = until; s.upd_from = from;
+    s.more = 0; s.more_map[ 0 ] = s.more_map[ 1 ] = 0; s.more_delta[ 0 ] = s.more_delta[ 1 ] = s.more_gap[ 0 ] = s.more_gap[ 1 ] = 0;
+    const std::size_t mp = l.find( " more=" );
+    if ( mp != std::string::npos )
+    {
+        unsigned long long m1 = 0, m2 = 0;
+        if ( sscanf( l.c_str() + mp, " more=%u m1=%llx:%u:%u m2=%llx:%u:%u", &s.more, &m1, &s.more_delta[ 0 ], &s.more_gap[ 0 ], &m2, &s.more_delta[ 1 ], &s.more_gap[ 1 ] ) != 7 || s.more > 2 ) return false;
+        s.more_map[ 0 ] = m1; s.more_map[ 1 ] = m2;
+    }
     return true;
 }
 
@@ -102,8 +115,11 @@ void run_script( const Script& s, Out& o )
 
     std::uint64_t anchor = 0;               // number of the connection event the current anchor belongs to ( CONNECT_IND: 0 )
     mask_t        map = s.map & csa1::all_channels;
-    bool          upd_sent = false, upd_pending = false, upd_applied = false;
+    bool          upd_sent = false, upd_pending = false, upd_applied = false;     // about the last request that was sent
     std::uint64_t upd_instant = 0;
+    unsigned      next_upd = 0;                 // 0: the first request, 1, 2: the further ones
+    mask_t        cur_upd_map = 0, prev_map = s.map & csa1::all_channels;     // map of the last request; map in force before it was applied
+    bool          rejected_seen = false, cur_after_rejected = false;         // an invalid request passed its instant ( before the last request was sent )
     const char*   kind = "first-event";
     std::uint32_t ce_seen = 0;
     std::uint64_t last_planned = 0;
@@ -135,7 +151,8 @@ void run_script( const Script& s, Out& o )
         if ( upd_pending && planned >= upd_instant )
         {
             upd_pending = false;
-            if ( csa1::valid_map( s.upd_map ) ) { map = s.upd_map & csa1::all_channels; upd_applied = true; }
+            if ( csa1::valid_map( cur_upd_map ) ) { prev_map = map; map = cur_upd_map & csa1::all_channels; upd_applied = true; }
+            else rejected_seen = true;
         }
         const unsigned want = csa1::channel( map, s.hop, planned );
         const unsigned got  = ll->log.ce_channel;
@@ -145,7 +162,7 @@ void run_script( const Script& s, Out& o )
         // table of a map?
         auto table_is = [&]( mask_t m ) { for ( unsigned i = 0; i != 37; ++i ) if ( ll->channels_.data_channel( i ) != csa1::channel( m, s.hop, i ) ) return false; return true; };
         const bool table_ok = table_is( map );
-        if ( table_was_ok && !table_ok && upd_sent && !csa1::valid_map( s.upd_map ) && planned >= upd_instant ) table_lost_at_invalid_update = true;
+        if ( table_was_ok && !table_ok && upd_sent && !csa1::valid_map( cur_upd_map ) && planned >= upd_instant ) table_lost_at_invalid_update = true;
         if ( got != want )
         {
             // every mismatch is a violation; the signature names the mechanism: the table of the map in force is wrong
@@ -154,8 +171,8 @@ void run_script( const Script& s, Out& o )
             std::string why;
             if ( table_ok )
                 why = mc::fmt( "index-not-following-elapsed-events:%s%s", kind, planned > 0xffff ? ":after-counter-wrap" : "" );
-            else if ( upd_sent && csa1::valid_map( s.upd_map ) && table_is( upd_applied ? s.map : s.upd_map ) )
-                why = upd_applied ? "map-update-not-in-force-at-instant" : "map-update-in-force-before-instant";
+            else if ( upd_sent && csa1::valid_map( cur_upd_map ) && table_is( upd_applied ? prev_map : cur_upd_map ) )
+                why = upd_applied ? ( cur_after_rejected ? "map-update-not-in-force-at-instant:after-rejected-update" : "map-update-not-in-force-at-instant" ) : "map-update-in-force-before-instant";
             else if ( table_lost_at_invalid_update )
                 why = "invalid-map-update-applied";
             else
@@ -168,7 +185,7 @@ void run_script( const Script& s, Out& o )
         table_was_ok = table_ok;
         {
             bool remapped = false; csa1::channel( map, s.hop, planned, &remapped );
-            rep.cls( mc::fmt( "channel-ok:%s:%s%s%s", kind, remapped ? "remapped" : "unmapped", upd_applied ? ":new-map" : upd_sent ? ( upd_pending ? ":update-pending" : ":update-ignored" ) : "",
+            rep.cls( mc::fmt( "channel-ok:%s:%s%s%s", kind, remapped ? "remapped" : "unmapped", upd_applied ? ( cur_after_rejected ? ":new-map-after-rejected-update" : next_upd > 1 ? ":new-map-of-later-update" : ":new-map" ) : upd_sent ? ( upd_pending ? ":update-pending" : ":update-ignored" ) : "",
                               planned > 0xffff ? ":after-counter-wrap" : "" ) );
         }
         last_planned = planned;
@@ -184,15 +201,20 @@ void run_script( const Script& s, Out& o )
             continue;
         }
         kind = "event";
-        const bool carry = !upd_sent && s.upd_step >= 0 && ( s.upd_from ? planned >= s.upd_from : int( step ) >= s.upd_step );
+        const bool carry = !upd_pending && s.upd_step >= 0 && next_upd <= s.more
+                        && ( next_upd == 0 ? ( s.upd_from ? planned >= s.upd_from : int( step ) >= s.upd_step ) : planned >= upd_instant + s.more_gap[ next_upd - 1 ] );
         if ( carry )
         {
-            const std::uint16_t instant = std::uint16_t( planned + s.upd_delta );
+            const unsigned delta = next_upd == 0 ? s.upd_delta : s.more_delta[ next_upd - 1 ];
+            cur_upd_map = next_upd == 0 ? s.upd_map : s.more_map[ next_upd - 1 ];
+            cur_after_rejected = rejected_seen;
+            ++next_upd;
+            const std::uint16_t instant = std::uint16_t( planned + delta );
             std::uint8_t req[ 8 ] = { 0x01 };
-            csa1::to_bytes( s.upd_map, req + 1 );
+            csa1::to_bytes( cur_upd_map, req + 1 );
             req[ 6 ] = std::uint8_t( instant ); req[ 7 ] = std::uint8_t( instant >> 8 );
-            upd_sent = true; upd_pending = true; upd_instant = planned + s.upd_delta;
-            if ( o.verbose ) printf( "  LL_CHANNEL_MAP_REQ map %s (%d used) instant %u delivered in event %llu\n", csa1::hex( s.upd_map ).c_str(), csa1::used_count( s.upd_map ), instant, (unsigned long long)planned );
+            upd_sent = true; upd_pending = true; upd_applied = false; upd_instant = planned + delta;
+            if ( o.verbose ) printf( "  LL_CHANNEL_MAP_REQ map %s (%d used) instant %u delivered in event %llu\n", csa1::hex( cur_upd_map ).c_str(), csa1::used_count( cur_upd_map ), instant, (unsigned long long)planned );
             const unsigned acked = ll->sim_ll_control( req, sizeof req );
             if ( acked != 1 ) { rep.cls( "update-not-acknowledged" ); }
         }
@@ -246,8 +268,11 @@ int main( int argc, char** argv )
     std::vector< unsigned > patterns;
     if ( a.thorough() ) for ( unsigned p = 0; p != 255; ++p ) patterns.push_back( p );
     else patterns = { 0x00, 0x02, 0x05, 0x12, 0x6c, 0x01, 0xf0, 0x55, 0x7f, 0xee };
-    struct Upd { int step; int map_sel; unsigned delta; };  // map_sel: index offset into maps, -1: one channel, -2: no channel
-    const std::vector< Upd > updates = { { -1, 0, 0 }, { 3, 3, 2 }, { 10, -1, 6 }, { 5, -2, 1 }, { 20, 1, 9 }, { 0, 5, 1 } };
+    struct Upd { int step; int map_sel; unsigned delta; unsigned more; int sel1; unsigned delta1, gap1; int sel2; unsigned delta2, gap2; };  // map_sel: index offset into maps, -1: one channel, -2: no channel
+    const std::vector< Upd > updates = { { -1, 0, 0 }, { 3, 3, 2 }, { 10, -1, 6 }, { 5, -2, 1 }, { 20, 1, 9 }, { 0, 5, 1 },
+                                         { 3, -1, 2, 1, 3, 3, 2 },                 // rejected, then valid
+                                         { 2, 2, 2, 2, -2, 2, 1, 5, 6, 1 },        // valid, rejected, valid
+                                         { 4, -2, 1, 2, -1, 1, 0, 1, 2, 0 } };     // rejected, rejected, valid ( back to back )
     const unsigned latencies[] = { 0, 1, 3 };
 
     Out o{ rep, false };
@@ -282,8 +307,9 @@ int main( int argc, char** argv )
                     for ( const Upd& u : updates )
                     {
                         if ( cut ) break;
-                        const mask_t um = u.map_sel == -1 ? ( one << ( ( hop + mi ) % 37 ) ) : u.map_sel == -2 ? 0 : maps[ ( mi + u.map_sel ) % maps.size() ];
-                        one_script( Script{ hop, maps[ mi ], ( mi & 1 ) ? 0xe0u : 0u, lat, p, u.step, um, u.delta, 101, 0 } );
+                        auto sel = [&]( int k ) { return k == -1 ? ( one << ( ( hop + mi ) % 37 ) ) : k == -2 ? mask_t( 0 ) : maps[ ( mi + k ) % maps.size() ]; };
+                        one_script( Script{ hop, maps[ mi ], ( mi & 1 ) ? 0xe0u : 0u, lat, p, u.step, sel( u.map_sel ), u.delta, 101, 0,
+                                            u.more, { u.more > 0 ? sel( u.sel1 ) : 0, u.more > 1 ? sel( u.sel2 ) : 0 }, { u.delta1, u.delta2 }, { u.gap1, u.gap2 } } );
                     }
     // 3) the 65535 -> 0 wrap of the event counter, with and without latency / misses / a map update whose instant lies behind the wrap
     {
@@ -302,7 +328,7 @@ int main( int argc, char** argv )
     rep.transitions = o.sim_events;
     rep.counters[ "simulated_connection_events" ] = o.sim_events;
     if ( cut ) { rep.exhaustive = false; rep.notes[ "cut" ] = "deadline or too many signatures"; }
-    rep.notes[ "bound" ] = mc::fmt( "%zu maps x hop %u..%u x latency {0,1,3} x %zu cyclic 8-event hit/miss patterns x 6 channel map update variants, event numbers 0..101; all invalid hops / maps with < 2 channels in CONNECT_IND; counter wrap scripts up to event 65656",
+    rep.notes[ "bound" ] = mc::fmt( "%zu maps x hop %u..%u x latency {0,1,3} x %zu cyclic 8-event hit/miss patterns x 9 channel map update variants (single requests; rejected-then-valid, valid-rejected-valid, rejected-rejected-valid sequences), event numbers 0..101; all invalid hops / maps with < 2 channels in CONNECT_IND; counter wrap scripts up to event 65656",
                                     maps.size(), hop_from, hop_to, patterns.size() );
     rep.write( a );
     return 0;
